@@ -3,7 +3,16 @@
 #include "vh.hpp"
 #include <vector>
 static std::vector<std::vector<uint8_t>> g_blocks; static size_t g_next = 0;
+#include <dlfcn.h>
+// The generator's refill is the one-shot call S = Hash512(S) (64 bytes in place): that call is served from the script.
+// Any other one-shot call of the library (Argon2's H' when a cache is initialised) goes to the library's own function.
+static bool g_onlyRefill = false;
 extern "C" int randomx_blake2b(void* out, size_t outlen, const void* in, size_t inlen, const void* key, size_t keylen) {
+	if (g_onlyRefill && !(out == in && outlen == 64 && inlen == 64 && keylen == 0)) {
+		typedef int (*fn)(void*, size_t, const void*, size_t, const void*, size_t);
+		static fn real = (fn)dlsym(RTLD_NEXT, "randomx_blake2b");
+		return real(out, outlen, in, inlen, key, keylen);
+	}
 	if (g_next >= g_blocks.size()) { static vh::Rng fb(99); g_blocks.push_back(fb.bytes(64)); }   // script exhausted: continue with uniform blocks (they are logged like the others)
 	memcpy(out, g_blocks[g_next++].data(), 64);
 	return 0;
